@@ -299,6 +299,9 @@ func dischargeOne(o *Obligation, cfg *Config) {
 	o.QuerySz = len(qp)
 	if cfg.DumpDir != "" {
 		dumpQuery(cfg.DumpDir, o.Name, qp)
+		if qm != "" {
+			dumpQuery(cfg.DumpDir, o.Name+".absmul", qm)
+		}
 	}
 	if len(qp) > 4<<20 {
 		o.Status = "undecided"
